@@ -728,6 +728,11 @@ def main(tier, seed):
                     for t1 in ptypes:
                         pj.append((role, pos, strict, t1, ptypes))
         acc.merge(core.pmap(pair_worker, core.rotate(pj, seed), chunksize=4))
+    # a guessed first key exchange packet (first_kex_packet_follows): a wrong guess is the one message the RFC tells
+    # the receiver to ignore, with the session going on as if it had not been sent; a right guess is the exchange's
+    # own message (checks/c02.py's independent-peer harness)
+    import c02
+    acc.merge(core.pmap(c02.guess_worker, c02.guess_jobs()))
     depth = 5 if tier == 'quick' else 8
     acc.merge(core.pmap(auth_worker, [([(a, b)], depth) for a in AUTH_EVENTS for b in AUTH_EVENTS]))
     rule = ('message type (1..100,192,255) x shape (well-formed, truncated, trailing byte) x position '
@@ -747,6 +752,14 @@ def main(tier, seed):
 
 def replay(rep):
     r = rep['replay']
+    if r.get('kind') == 'guess':
+        import c02
+        acc = c02.guess_worker([tuple(r['item'])])
+        print(json.dumps(acc.violations, indent=1, default=repr))
+        if acc.violations:
+            print('VIOLATION property=%s replay=(given)' % PROP)
+            return 1
+        return 0
     if 'authdlg' in r:
         obs = auth_dialogue(tuple(r['authdlg']))
         print(json.dumps(obs, indent=1, default=repr))
